@@ -13,6 +13,7 @@
 #include <cstdio>
 #include <cstdlib>
 #include <fstream>
+#include <mutex>
 #include <string>
 #include <thread>
 #include <vector>
@@ -177,6 +178,62 @@ int main(int argc, char** argv) {
       flipper.join();
       limit_calls += 3 * 300 * (rounds > 50 ? 4 : 1);
       if (bad) { wrong += bad; if (first_wrong.empty()) first_wrong = "limit toggling on \"" + f.in + "\": a result matches neither limit"; }
+    }
+    // every setter of both URL types while the limit flips between "no limit" and a value the
+    // result does not fit: the call must behave as under one of the two (return value AND
+    // state), never return failure with a modified URL or success with a rolled-back one
+    {
+      struct SetCase { const char* start; int setter; const char* value; };
+      static const SetCase set_cases[] = {
+          {"https://example.com/", 0, "a-twenty-byte-username"}, {"https://example.com/", 1, "a-twenty-byte-password"}, {"https://example.com/", 2, "a-much-longer-host-name.example"},
+          {"https://example.com/", 3, "a-much-longer-host-name.example"}, {"https://example.com/", 4, "65535"}, {"https://example.com/", 5, "/a/long/path/segment/x"},
+          {"https://example.com/", 6, "?q=0123456789abcdefghij"}, {"https://example.com/", 7, "#0123456789abcdefghij"}, {"ws://example.com/", 8, "https"},
+          {"https://example.com/", 9, "https://example.com/longer/than/the/limit"}, {"foo:/bar", 5, "//a/b/c/d/e/f/g/h/i"}, {"https://u@example.com/p?q#f", 1, "pass word with spaces"}};
+      auto apply = [](auto& u, int setter, std::string_view v) -> int {
+        switch (setter) {
+          case 0: return u.set_username(v); case 1: return u.set_password(v); case 2: return u.set_host(v); case 3: return u.set_hostname(v); case 4: return u.set_port(v);
+          case 5: return u.set_pathname(v); case 6: u.set_search(v); return 2; case 7: u.set_hash(v); return 2; case 8: return u.set_protocol(v); default: return u.set_href(v);
+        }
+      };
+      auto run_one = [&](auto proto_obj, const SetCase& sc) {
+        using U = decltype(proto_obj);
+        ada::set_max_input_length(UINT32_MAX);
+        auto start = ada::parse<U>(sc.start);
+        if (!start) return;
+        const uint32_t L2 = (uint32_t)start->get_href().size() + 3;
+        std::string e[2];
+        for (int k = 0; k < 2; k++) {
+          ada::set_max_input_length(k ? L2 : UINT32_MAX);
+          U u = *start;
+          int r = apply(u, sc.setter, sc.value);
+          e[k] = std::to_string(r) + "|" + std::string(u.get_href());
+        }
+        std::atomic<bool> stop{false};
+        std::thread flipper([&] { while (!stop.load()) { ada::set_max_input_length(UINT32_MAX); ada::set_max_input_length(L2); toggles += 2; } });
+        std::atomic<uint64_t> bad{0};
+        std::string bad_example;
+        std::mutex m;
+        std::vector<std::thread> workers;
+        const int iters = 400 * (rounds > 50 ? 4 : 1);
+        for (int w = 0; w < 3; w++)
+          workers.emplace_back([&] {
+            for (int i = 0; i < iters; i++) {
+              U u = *start;
+              int r = apply(u, sc.setter, sc.value);
+              std::string got = std::to_string(r) + "|" + std::string(u.get_href());
+              if (got != e[0] && got != e[1]) { bad++; std::lock_guard<std::mutex> g(m); if (bad_example.empty()) bad_example = got; }
+            }
+          });
+        for (auto& w : workers) w.join();
+        stop = true;
+        flipper.join();
+        limit_calls += 3 * (uint64_t)iters;
+        if (bad) {
+          wrong += bad;
+          if (first_wrong.empty()) first_wrong = std::string("limit toggling, setter #") + std::to_string(sc.setter) + "(\"" + sc.value + "\") on \"" + sc.start + "\": got \"" + bad_example + "\", allowed \"" + e[0] + "\" (no limit) or \"" + e[1] + "\" (limit " + std::to_string(L2) + ")";
+        }
+      };
+      for (auto& sc : set_cases) { run_one(ada::url_aggregator{}, sc); run_one(ada::url{}, sc); }
     }
     ada::set_max_input_length(UINT32_MAX);
   }
